@@ -10,6 +10,13 @@ let le32 (x : int) = [ byte_of_int x; byte_of_int (x lsr 8); byte_of_int (x lsr 
 (* abstract tuple: (infomask, id); HEAP_HASNULL (bit 0 of the infomask) decides whether column b is NULL;
    page = list of them; file = list of pages *)
 let ds_of (mask, id) : datum list =
+  (* id < 0 with HEAP_HASNULL: a row whose attributes are ALL NULL - no data area at all, t_hoff = tuple length
+     (INSERT ... DEFAULT VALUES); seeded change C09-6 *)
+  if id < 0 && mask land 1 = 1 then [ DNull; DNull; DNull ] else
+  (* id with bit 29 set: a row written before ALTER TABLE ADD COLUMN - only two attributes are stored (natts = 2), the
+     third column must come back as NULL from every interface, the deleted-row recovery included (seeded change C09-10) *)
+  if id >= 0 && id land 0x20000000 <> 0 then
+    (if mask land 1 = 1 then [ DFixed (le32 id); DNull ] else [ DFixed (le32 id); DFixed (le32 7) ]) else
   if mask land 1 = 1 then [ DFixed (le32 id); DNull; DFixed (le32 (id + 1)) ] else [ DFixed (le32 id); DFixed (le32 7); DFixed (le32 (id + 1)) ]
 let mk_tup r (mask, id) : tup =
   let ds = ds_of (mask, id) in
@@ -24,7 +31,7 @@ let mk_tup r (mask, id) : tup =
                | 2 -> List.init 18 (fun _ -> byte_of_int 0)
                | 3 -> sub 0 4 h @ sub 0 4 h @ sub 8 18 h
                | _ -> h);
-    tp_natts = zi 3; tp_flags2 = zi (rint r 32); tp_infomask = zi mask;
+    tp_natts = zi (List.length ds); tp_flags2 = zi (rint r 32); tp_infomask = zi mask;
     tp_hoff = zi 24; tp_mid = (if mask land 1 = 1 then bitmap_of ds else [ byte_of_int 0 ]); tp_data = fill (zi 0) cols3 ds }
 let mk_page r (ts : (int * int) list) : page =
   let n = List.length ts in
@@ -42,7 +49,9 @@ let mk_page r (ts : (int * int) list) : page =
     pg_lps = lps; pg_body = Array.to_list (Array.map byte_of_int body) }
 
 let row_s (m, id) = c_map (expected_row_i cols3 (ds_of (m, id)))
-let rawlen (m, _) = if m land 1 = 1 then 8 else 12
+let rawlen (m, id) = if id < 0 && m land 1 = 1 then 0
+  else if id >= 0 && id land 0x20000000 <> 0 then (if m land 1 = 1 then 4 else 8)
+  else if m land 1 = 1 then 8 else 12
 let ids l = c_list (List.map string_of_int l)
 let idpo l = c_list (List.map (fun (id, po) -> Printf.sprintf "%d@%d" id po) l)
 
@@ -117,7 +126,9 @@ let gen seed n =
     let np = rrange r 1 3 in
     let ctr = ref 0 in
     let pages = List.init np (fun _ -> List.init (rint r 9) (fun _ -> incr ctr;
-                                  ((if rint r 4 = 0 then ZA.to_int (rbits r 16) else pick r kinds lor (rint r 256)), 1000 * k + !ctr))) in
+                                  let m = if rint r 4 = 0 then ZA.to_int (rbits r 16) else pick r kinds lor (rint r 256) in
+                                  (m, if m land 1 = 1 && rint r 4 = 0 then -1
+                                      else if rint r 5 = 0 then (1000 * k + !ctr) lor 0x20000000 else 1000 * k + !ctr))) in
     run ~tag:"mixed_versions" r pages
   done
 let () = main gen
